@@ -146,9 +146,30 @@ func (v *wireView) codecTypes(root *ssa.Function, keep func(*ssa.Call) bool) (ma
 			}
 		case tbXSSHPath + ".Unmarshal":
 			if len(cv.Call.Args) == 2 {
-				if t := derefNamedT(strip(cv.Call.Args[1]).Type()); t != nil && !seenU[t] {
+				tt := strip(cv.Call.Args[1]).Type()
+				if t := derefNamedT(tt); t != nil && !seenU[t] {
 					seenU[t] = true
 					unmarshalled = append(unmarshalled, t)
+				} else if p, ok := tt.Underlying().(*types.Pointer); ok {
+					// a generic decoder: the target is of the helper's type parameter; what it stands for is read off
+					// the instances of the helper that root's tree calls
+					if tp, isTP := types.Unalias(p.Elem()).(*types.TypeParam); isTP {
+						gen := cv.Parent()
+						for _, g := range v.w.Tree(root) {
+							if g.Origin() != gen || g == gen {
+								continue
+							}
+							tps, targs := gen.TypeParams(), g.TypeArgs()
+							for i := 0; i < tps.Len() && i < len(targs); i++ {
+								if tps.At(i) == tp {
+									if t := derefNamedT(targs[i]); t != nil && !seenU[t] {
+										seenU[t] = true
+										unmarshalled = append(unmarshalled, t)
+									}
+								}
+							}
+						}
+					}
 				}
 			}
 		}
